@@ -98,7 +98,9 @@ def rule_xlate(ctx):
                 return Adt("XLATE", "ty", {"of": args[0]})
             if n == "is_codata":
                 return codata
-            if n == "compile_subst" and ck.startswith("fun2core::"):
+            if ck.startswith("fun2core::") and args and isinstance(I.deref(args[0]), Sym) and \
+                    (n == "compile_subst" or (ck in fx.fns and fx.fns[ck]["locals"][0]["ty"].endswith("Arguments") and "{" not in ck and len(args) == 2)):
+                # the translation of an argument list (compile_subst on the pinned tree): a marker for the translated arguments
                 return Adt(CORE + "arguments::Arguments", "Arguments", {"entries": Vec([Adt("XLATE", "args", {"of": args[0]})])})
             if n in ("subst_covar", "subst_var", "subst_sim") and tr.endswith("traits::substitution::Subst"):
                 # a substitution applied to a translated statement: kept as a marker (the scheme of the language has none)
